@@ -79,6 +79,25 @@ func newLoadOpts(h *hist, length int, conc int, exclude iface.ExcludeFunc, timeo
 	return o
 }
 
+func (o *loadOpts) setExclude(es []iface.IPFSLogEntry) {
+	o.fo.Exclude = es
+	o.efo.Exclude = es
+	if len(es) > 0 {
+		vx.Cover("exclude-list")
+	}
+}
+
+// pickSubset: any subset of es (one decision per element).
+func pickSubset(name string, es []iface.IPFSLogEntry) []iface.IPFSLogEntry {
+	var out []iface.IPFSLogEntry
+	for _, e := range es {
+		if vx.Choice(name, 2) == 1 {
+			out = append(out, e)
+		}
+	}
+	return out
+}
+
 // loadWith runs one of the four loaders with the given (possibly reused) options.
 func loadWith(h *hist, L *ipfslog.IPFSLog, loader int, o *loadOpts) (*ipfslog.IPFSLog, error) {
 	id := h.ids[0]
@@ -122,6 +141,11 @@ func H_C09() {
 	wantVals := L.Values().Slice()
 	h.api.gated = true
 	opts := newLoadOpts(h, -1, conc, nil, 0)
+	if vx.Param("EXCL", 0) == 1 {
+		// FetchOptions.Exclude: entries the caller says it already holds (any subset of the log's entries, not
+		// necessarily closed under ancestry); the rebuilt log is the same
+		opts.setExclude(pickSubset("excl", want))
+	}
 	vx.ExploreOn()
 	N, err := loadWith(h, L, loader, opts)
 	vx.ExploreOff()
@@ -256,6 +280,9 @@ func H_C10() {
 	h.api.gated = true
 	opts := newLoadOpts(h, n, conc, nil, 0)
 	opts.sources = sources
+	if vx.Param("EXCL", 0) == 1 {
+		opts.setExclude(pickSubset("excl", all)) // entries the caller already holds: they count like fetched ones
+	}
 	srcBefore := append([]iface.IPFSLogEntry{}, sources...)
 	vx.ExploreOn()
 	N, err := loadWith(h, L, loader, opts)
